@@ -1,17 +1,23 @@
 (** C04 — Only the identity the auth backend verified is authenticated.
     Statements only; every proof is [exact <lemma>] or a [vm_compute] witness. *)
 From Coq Require Import String Ascii List Bool Arith ZArith.
-From Raven Require Import Base.GoStr Base.GoStrB64 Spec.Json Model.Auth Spec.AuthSpec
+From Raven Require Import Base.GoStr Base.GoStrB64 Base.GoStrJson Spec.Json Model.Auth Spec.AuthSpec
   Proof.AuthJson Proof.AuthIdent Proof.AuthFlow Proof.AuthSasl Proof.AuthLogin Proof.AuthB64 Proof.AuthPlain Proof.AuthEnd.
 Import ListNotations.
 
-(** (a) For ALL addresses and passwords free of double quote, backslash and
-    control octets, the backend -- reading the Sprintf-built body with a strict
-    JSON lexer -- sees exactly the pair (email, password) and nothing else. *)
+(** (a) For ALL addresses and passwords that are valid UTF-8 -- every ASCII
+    string, with quotes, backslashes, braces and control octets -- the backend,
+    reading the json.Marshal-built body with a strict JSON lexer, sees exactly
+    the pair (email, password) and nothing else.  (Octets that are not valid
+    UTF-8 are replaced by U+FFFD by encoding/json: stated domain limit.) *)
 Theorem c04_body_exact : forall e p : str,
-  json_clean e = true -> json_clean p = true -> body_exact (build_body e p) e p.
-Proof. exact body_exact_clean. Qed.
+  utf8_valid e = true -> utf8_valid p = true -> body_exact (build_body e p) e p.
+Proof. exact body_exact_valid. Qed.
 Print Assumptions c04_body_exact.
+
+Theorem c04_ascii_in_domain : forall s : str, all_ascii s = true -> utf8_valid s = true.
+Proof. exact ascii_utf8_valid. Qed.
+Print Assumptions c04_ascii_in_domain.
 
 (** (c) For ALL user names with at most one '@' and every non-empty default
     domain, the user row the session is bound to is the row of the address
@@ -21,12 +27,19 @@ Theorem c04_bound_identity : forall d u : str, d <> [] -> count_byte u AT <= 1 -
 Proof. exact bound_identity. Qed.
 Print Assumptions c04_bound_identity.
 
-(** ... and it is a different row for EVERY user name with more than one '@' *)
+(** ... it would be a different row for EVERY user name with more than one '@'
+    (a fact about ExtractUsername/GetUserDomain) ... *)
 Theorem c04_bound_identity_conv : forall d u : str, d <> [] -> count_byte d AT = 0 ->
   2 <= count_byte u AT ->
   ~ store_of (address_of d u) (extract_username u, get_user_domain d u).
 Proof. exact bound_identity_conv. Qed.
 Print Assumptions c04_bound_identity_conv.
+
+(** ... which is why such user names are refused before the backend is contacted *)
+Theorem c04_multi_at_refused : forall d u p b ens init, multi_at u = true ->
+  let r := authenticate_user d u p b ens init in sent r = [] /\ answer r = R_NO /\ bound r = None.
+Proof. exact multi_at_refused. Qed.
+Print Assumptions c04_multi_at_refused.
 
 (** (b) Whatever the credentials, entry point (LOGIN line, AUTHENTICATE PLAIN
     data), default domain and backend outcome (any status, timeout, refused,
@@ -62,10 +75,11 @@ Theorem c04_session_no_rebind : forall (l : list attempt) (s : sess),
 Proof. exact session_no_rebind. Qed.
 Print Assumptions c04_session_no_rebind.
 
-(** the property for one attempt: all default domains, user names, passwords
-    (all octets) outside the finding classes, all backend outcomes *)
+(** the property for one attempt: all default domains, all user names and
+    passwords in the UTF-8 domain (any number of '@', quotes, backslashes,
+    control octets), all backend outcomes -- no finding class left here *)
 Theorem c04_imap_attempt : forall d u p b ens init,
-  classify_cred d u p = None ->
+  in_domain d u p = true ->
   imap_spec d u p (accepted b) (authenticate_user d u p b ens init).
 Proof. exact imap_attempt_spec. Qed.
 Print Assumptions c04_imap_attempt.
@@ -82,7 +96,7 @@ Proof. exact session_only_200. Qed.
 Print Assumptions c04_session_only_200.
 
 Theorem c04_session_bound_exact : forall l : list attempt,
-  (forall a u p, In a l -> entry_creds false (a_entry a) = Creds u p -> classify_cred (a_domain a) u p = None) ->
+  (forall a u p, In a l -> entry_creds false (a_entry a) = Creds u p -> in_domain (a_domain a) u p = true) ->
   forall row, who (run_session l) = Some row ->
   exists a u p, In a l /\ entry_creds false (a_entry a) = Creds u p /\ accepted (a_backend a) = true
     /\ store_of (address_of (a_domain a) u) row
@@ -102,7 +116,7 @@ Print Assumptions c04_login_args_exact.
 
 Theorem c04_login_end_to_end : forall d tag fu fp u p b ens init,
   nsp tag = true -> tag <> [] ->
-  classify_login fu fp u p = None -> classify_cred d u p = None ->
+  classify_login fu fp u p = None -> in_domain d u p = true ->
   imap_spec d u p (accepted b)
     (run_creds d (login_creds false true (login_line tag fu fp u p)) b ens init).
 Proof. exact login_end_to_end. Qed.
@@ -123,7 +137,7 @@ Print Assumptions c04_authplain_exact.
 
 Theorem c04_authplain_end_to_end : forall d z u p b ens init,
   count_byte z NUL = 0 -> count_byte u NUL = 0 -> count_byte p NUL = 0 -> u <> [] -> p <> [] ->
-  classify_cred d u p = None ->
+  in_domain d u p = true ->
   imap_spec d u p (accepted b)
     (run_creds d (authplain_creds false true (b64_encode (z ++ NUL :: u ++ NUL :: p) ++ crlf)) b ens init).
 Proof. exact authplain_end_to_end. Qed.
@@ -140,66 +154,64 @@ Theorem c04_sasl_decoded_exact : forall id z u p,
 Proof. exact sasl_decoded_exact. Qed.
 Print Assumptions c04_sasl_decoded_exact.
 
-(** (d) for EVERY request line and backend outcome: one line, carrying the id,
-    unless the decoded user name contains TAB or LF *)
+(** (d) for EVERY request line and backend outcome: one line, carrying the id *)
 Theorem c04_sasl_single_line : forall domain raw b id,
   contains_byte raw LF = false -> request_id raw = Some id ->
-  classify_sasl domain raw <> Some F_sasl_reply_injection ->
   single_line (s_wrote (sasl_line domain raw b)) = true
   /\ carries_id id (s_wrote (sasl_line domain raw b)) = true.
 Proof. exact sasl_single_line. Qed.
 Print Assumptions c04_sasl_single_line.
 
-(** (b) for EVERY line (any command, mechanism, parameters, encoding) and
-    backend outcome outside the finding classes: an OK line only after a 200
-    for a request carrying exactly the decoded pair *)
+(** (b) for EVERY line (any command, mechanism, parameters, encoding, user
+    name) and backend outcome: an OK line only after a 200 for a request built
+    from exactly the decoded pair -- read by the backend as exactly that pair
+    when it is valid UTF-8 -- and the answer is then exactly OK <id> user=<u> *)
 Theorem c04_sasl_ok_only_200 : forall domain raw b,
-  contains_byte raw LF = false -> classify_sasl domain raw = None ->
+  contains_byte raw LF = false ->
   has_ok_line (s_wrote (sasl_line domain raw b)) = true ->
   accepted b = true /\
   exists id u p, sasl_decoded raw = Some (id, u, p)
     /\ s_sent (sasl_line domain raw b) = [build_body (address_of domain u) p]
-    /\ body_exact (build_body (address_of domain u) p) (address_of domain u) p
+    /\ (in_domain domain u p = true -> body_exact (build_body (address_of domain u) p) (address_of domain u) p)
     /\ s_wrote (sasl_line domain raw b) = S_ "OK" ++ TAB :: id ++ TAB :: S_ "user=" ++ u ++ [LF].
 Proof. exact sasl_ok_only_200. Qed.
 Print Assumptions c04_sasl_ok_only_200.
 
+(** user names with TAB, CR or LF are refused without echo and without a
+    backend request; user names with more than one '@' without a backend request *)
+Theorem c04_sasl_bad_user_refused : forall domain id resp given u p b,
+  sasl_plain_creds id resp given = inr (u, p) -> sasl_user_bad u = true ->
+  sasl_plain domain id resp given b =
+  mk_sasl [] (sasl_line1 (S_ "FAIL") id (S_ "reason=Invalid credentials format")).
+Proof. exact sasl_bad_user_refused. Qed.
+Print Assumptions c04_sasl_bad_user_refused.
+
+Theorem c04_sasl_multi_at_refused : forall domain u p b, multi_at u = true ->
+  sasl_authenticate domain u p b = ([], false).
+Proof. exact sasl_multi_at_refused. Qed.
+Print Assumptions c04_sasl_multi_at_refused.
+
 (** ---- refuted regions: raven violates the property there ---- *)
 
-(** JSON injection: the backend is asked about TWO e-mail members; a
-    last-key-wins backend verifies attacker@d, a first-key-wins one victim@d;
-    the session is bound to victim@d either way. *)
+(** regression notes (raven before the fixes; these do not mention the model):
+    the Sprintf-built body for user  victim@d.test","email":"attacker@d.test
+    had two e-mail members ... *)
 Definition inj_user : str := S_ "victim@d.test"",""email"":""attacker@d.test".
-Theorem c04_refuted_json_meta :
-  classify_cred (S_ "d.test") inj_user (S_ "pw") = Some F_json_meta
-  /\ ~ imap_spec (S_ "d.test") inj_user (S_ "pw") true
-         (authenticate_user (S_ "d.test") inj_user (S_ "pw") (Status 200) true true)
-  /\ (let r := authenticate_user (S_ "d.test") inj_user (S_ "pw") (Status 200) true true in
-      exists body l, sent r = [body] /\ json_fields body = Some l
-        /\ last_of K_EMAIL l = Some (S_ "attacker@d.test")
-        /\ first_of K_EMAIL l = Some (S_ "victim@d.test")
-        /\ bound r = Some (S_ "victim", S_ "d.test")).
+Example c04_old_sprintf_body_was_injectable :
+  exists l, json_fields (S_ "{""email"":""" ++ inj_user ++ S_ """,""password"":""" ++ S_ "pw" ++ S_ """}") = Some l
+    /\ last_of K_EMAIL l = Some (S_ "attacker@d.test") /\ first_of K_EMAIL l = Some (S_ "victim@d.test").
 Proof.
-  split; [vm_compute; reflexivity|]. split.
-  - intros H. apply imap_spec_b_iff in H. vm_compute in H. discriminate.
-  - exists (build_body inj_user (S_ "pw")),
-           [(K_EMAIL, S_ "victim@d.test"); (K_EMAIL, S_ "attacker@d.test"); (K_PASSWORD, S_ "pw")].
-    repeat split; vm_compute; reflexivity.
+  exists [(K_EMAIL, S_ "victim@d.test"); (K_EMAIL, S_ "attacker@d.test"); (K_PASSWORD, S_ "pw")].
+  repeat split; vm_compute; reflexivity.
 Qed.
-Print Assumptions c04_refuted_json_meta.
 
-(** a@b@c: verified address a@b@c, session bound to a@<default domain> *)
-Theorem c04_refuted_multi_at :
-  classify_cred (S_ "d.test") (S_ "a@b@c") (S_ "pw") = Some F_multi_at
-  /\ ~ imap_spec (S_ "d.test") (S_ "a@b@c") (S_ "pw") true
-         (authenticate_user (S_ "d.test") (S_ "a@b@c") (S_ "pw") (Status 200) true true)
-  /\ bound (authenticate_user (S_ "d.test") (S_ "a@b@c") (S_ "pw") (Status 200) true true)
-     = Some (S_ "a", S_ "d.test").
-Proof.
-  split; [vm_compute; reflexivity|]. split; [|vm_compute; reflexivity].
-  intros H. apply imap_spec_b_iff in H. vm_compute in H. discriminate.
-Qed.
-Print Assumptions c04_refuted_multi_at.
+(** ... the same input now: one e-mail member, read back verbatim, bound to nobody
+    else; a@b@c and a SASL user name with LF are refused *)
+Example c04_regression_inputs :
+  body_exact_b (build_body inj_user (S_ "pw")) inj_user (S_ "pw") = true
+  /\ answer (authenticate_user (S_ "d.test") (S_ "a@b@c") (S_ "pw") (Status 200) true true) = R_NO
+  /\ sent (authenticate_user (S_ "d.test") (S_ "a@b@c") (S_ "pw") (Status 200) true true) = [].
+Proof. repeat split; vm_compute; reflexivity. Qed.
 
 (** LOGIN "a b" "p q": split on blanks before unquoting, the backend is asked
     about a / b *)
@@ -215,23 +227,21 @@ Proof.
 Qed.
 Print Assumptions c04_refuted_login_tokens.
 
-(** SASL user name with LF: after a 401 the answer has a second line that is
-    an OK for the same request id *)
+(** SASL user name with LF (an OK line used to follow the FAIL after a 401):
+    now one FAIL line, no backend request *)
 Definition inj_sasl_line : str :=
   S_AUTH ++ TAB :: S_ "8" ++ TAB :: S_ "PLAIN" ++ TAB :: S_ "service=smtp" ++ TAB ::
   S_ "resp=" ++ b64_encode (NUL :: S_ "x" ++ LF :: S_ "OK" ++ TAB :: S_ "8" ++ TAB :: S_ "user=admin" ++ NUL :: S_ "pw").
-Theorem c04_refuted_sasl_reply_injection :
-  classify_sasl (S_ "d.test") inj_sasl_line = Some F_sasl_reply_injection
-  /\ contains_byte inj_sasl_line LF = false
-  /\ accepted (Status 401) = false
-  /\ has_ok_line (s_wrote (sasl_line (S_ "d.test") inj_sasl_line (Status 401))) = true
-  /\ single_line (s_wrote (sasl_line (S_ "d.test") inj_sasl_line (Status 401))) = false.
+Example c04_regression_sasl_injection :
+  contains_byte inj_sasl_line LF = false
+  /\ has_ok_line (s_wrote (sasl_line (S_ "d.test") inj_sasl_line (Status 401))) = false
+  /\ single_line (s_wrote (sasl_line (S_ "d.test") inj_sasl_line (Status 401))) = true
+  /\ s_sent (sasl_line (S_ "d.test") inj_sasl_line (Status 401)) = [].
 Proof. repeat split; vm_compute; reflexivity. Qed.
-Print Assumptions c04_refuted_sasl_reply_injection.
 
 (** non-vacuity: hypotheses are satisfiable and the accepting path exists *)
 Example c04_accepting_path :
-  classify_cred (S_ "d.test") (S_ "alice") (S_ "s3cret {pw}") = None
+  in_domain (S_ "d.test") (S_ "alice") (S_ "s3cret {pw}") = true
   /\ answer (authenticate_user (S_ "d.test") (S_ "alice") (S_ "s3cret {pw}") (Status 200) true true) = R_OK
   /\ bound (authenticate_user (S_ "d.test") (S_ "alice") (S_ "s3cret {pw}") (Status 200) true true)
      = Some (S_ "alice", S_ "d.test").
@@ -240,9 +250,8 @@ Proof. repeat split; vm_compute; reflexivity. Qed.
 Example c04_sasl_accepting_path :
   let line := S_AUTH ++ TAB :: S_ "7" ++ TAB :: S_ "PLAIN" ++ TAB :: S_ "service=smtp" ++ TAB ::
               S_ "resp=" ++ b64_encode (NUL :: S_ "bob" ++ NUL :: S_ "pw") in
-  classify_sasl (S_ "d.test") line = None
-  /\ s_wrote (sasl_line (S_ "d.test") line (Status 200)) = S_ "OK" ++ TAB :: S_ "7" ++ TAB :: S_ "user=bob" ++ [LF].
-Proof. split; vm_compute; reflexivity. Qed.
+  s_wrote (sasl_line (S_ "d.test") line (Status 200)) = S_ "OK" ++ TAB :: S_ "7" ++ TAB :: S_ "user=bob" ++ [LF].
+Proof. vm_compute; reflexivity. Qed.
 
 Example c04_b64_vectors :
   b64_encode (S_ "foobar") = S_ "Zm9vYmFy" /\ b64_encode (S_ "fooba") = S_ "Zm9vYmE=" /\ b64_encode (S_ "foob") = S_ "Zm9vYg==".
